@@ -364,7 +364,7 @@ func (e *engine) runTarget(t *target) {
 }
 
 func boundText(t *target, thorough bool) string {
-	b := fmt.Sprintf("%d seeds: truncations, position x boundary values, 8-bit length fields x 256, 16-bit length fields x boundary values, strings<=%d", len(t.seeds), t.strN)
+	b := fmt.Sprintf("%d seeds: truncations, position x boundary values, 8-bit length fields x 256, 16-bit length fields x boundary values, strings<=%d", len(t.seeds), min(t.strN, map[bool]int{false: 2, true: 3}[thorough]))
 	if len(t.wraps) > 0 {
 		b += fmt.Sprintf(" (+%d framings)", len(t.wraps))
 	}
